@@ -969,3 +969,56 @@ def emit_every_path_rule(db, chk, cfg, rule="EMIT.every-path"):
                           "(for a Joined path or a self-crossing one that is part of the region within |delta| of the input)"
                           % (f.qual, (" at %s" % where(at)) if at is not None else " (falling off its end)"), where(at) if at is not None else f.where, cfg=cfg)
     return n
+
+
+# ---------------------------------------------------------------------------
+# MINK.point-ops: the point sum / difference Minkowski is built from
+# ---------------------------------------------------------------------------
+
+def point_ops_rule(db, chk, cfg, rule="MINK.point-ops"):
+    """detail::Minkowski forms its rows with Point::operator+ and Point::operator- (path point +/- pattern point).  Both member
+    operators are interpreted on two valuations of (x, y, b.x, b.y): the point they construct has x +/- b.x and y +/- b.y as its
+    first two coordinates, in every build (the USINGZ variant may carry a third)."""
+    n = 0
+    for f in db.funcs:
+        if f.is_pattern or f.body is None or f.name not in ("operator+", "operator-") or len(f.params) != 1 or not (f.cls or "").startswith("Point"):
+            continue
+        b = f.params[0].get("name")
+        sign = 1 if f.name == "operator+" else -1
+        ok = True
+        got_all = []
+        for (x, y, bx, by) in ((5, 7, 2, 3), (-11, 13, 17, -19)):
+            def hook(name, argv, nd):
+                if name.startswith("ctor:") and argv is not None and len(argv) >= 2:
+                    return ("pt",) + tuple(argv)
+                return NotImplemented
+            it = Interp(db, {"x": x, "y": y, "z": 0, b + ".x": bx, b + ".y": by, b + ".z": 0}, [], call_hook=hook)
+            rets = [r for r in walk(f.body) if r.get("kind") == "ReturnStmt" and kids(r)]
+            got = None
+            if len(rets) == 1:
+                ctor = [c for c in walk(rets[0]) if c.get("kind") in ("CXXConstructExpr", "CXXTemporaryObjectExpr", "InitListExpr") and
+                        len([a for a in kids(c) if isinstance(a, dict) and a.get("kind") and a.get("kind") != "CXXDefaultArgExpr"]) >= 2]
+                if ctor:
+                    args = [a for a in kids(ctor[0]) if isinstance(a, dict) and a.get("kind") and a.get("kind") != "CXXDefaultArgExpr"]
+                    try:
+                        got = ("pt",) + tuple(it.ev(a) for a in args)
+                    except Unsupported as e:
+                        raise AnalysisBroken("%s: cannot interpret Point::%s: %s" % (rule, f.name, e))
+            if got is None:
+                try:
+                    it.exec(f.body)
+                except _Return as r:
+                    got = r.v
+                except Unsupported as e:
+                    raise AnalysisBroken("%s: cannot interpret Point::%s: %s" % (rule, f.name, e))
+            got_all.append(got)
+            if not (isinstance(got, tuple) and got[0] == "pt" and got[1] == x + sign * bx and got[2] == y + sign * by):
+                ok = False
+        n += 1
+        chk.instance(rule, {"function": f.qual, "sig": f.sig[:60], "cfg": cfg}, ok=ok)
+        if not ok:
+            chk.violation(rule, f.qual, f.name + "|" + f.sig[:30], "Point::%s does not return (x %s b.x, y %s b.y): on (5,7) and (2,3) it builds %s - every row of a Minkowski %s is "
+                          "displaced" % (f.name, "+-"[sign < 0], "+-"[sign < 0], got_all[0], "sum" if sign > 0 else "difference"), f.where, cfg=cfg)
+    if n < 2:
+        raise AnalysisBroken("%s: Point::operator+ / operator- not found (configuration %s)" % (rule, cfg))
+    return n
